@@ -632,6 +632,10 @@ def handleAD (st : DState) (toks : List String) : Option (DState × String) :=
   | ["ad", "reset"] => some ({ st with adapter := none }, "ok")
   | ["ad", "restart"] => some ({ st with adapter := none }, "ok")
   | ["ad", "sm", "new"] => some ({ st with adapter := some {} }, "ok")
+  | ["ad", "sm", "failnext"] =>
+    match st.adapter with
+    | some s => some ({ st with adapter := some { s with failNext := true } }, "ok")
+    | none => some (st, "err:closed")
   | ["ad", "sm", "state"] =>
     match st.adapter with
     | some s => some (st, AD.stateStr s)
